@@ -253,6 +253,32 @@ def main(argv):
                 for fp in ((None, False, True) if version >= 8 else (None,)):
                     consider(compile_case(pt, model, mainr, version, True, ss, fp, prepare=prep), 1)
 
+    # 2b. free-form real programs with features outside the recipe language (ABI-returning routines with by-reference
+    #     parameters, DynamicScratchVar, NamedTuple ...): each is written to approve iff its own arithmetic - which goes through
+    #     argument passing, by-reference writes, results and recursion - comes out right; the oracle is the program's own
+    #     expected value, no model is involved
+    import c03_free
+    free_n = 0
+    for name, minv, build in c03_free.programs(pt):
+        for version in ([6, 7, 8, 9, 10] if thorough else [6, 8, 10]):
+            if version < minv:
+                continue
+            for ss, fp in c03_free.option_matrix(version):
+                r = call_real(lambda: pt.compileTeal(build(), pt.Mode.Application, version=version, optimize=optimize_of(pt, ss, fp)))
+                ck.count(("free", name, version, ss, fp), nontrivial=(r[0] == "ok"))
+                free_n += 1
+                if r[0] != "ok":
+                    if r[1] not in PYTEAL_ERRORS:
+                        semfails.append({"kind": "free-crash", "program": name, "version": version, "scratch_slots": ss, "frame_pointers": fp, "avm": r[1], "denote": "TEAL expected"})
+                    continue
+                ctx = gen_context(rng, True)
+                a = run_teal(model, ctx, r[1])
+                o = observable(a)
+                if o is not None and o[0] != repr(S("approve")):
+                    semfails.append({"kind": "free-verdict", "program": name, "version": version, "scratch_slots": ss, "frame_pointers": fp, "ctx": sx(ctx), "teal": r[1],
+                                     "avm": repr(a)[:1500], "denote": "approve (the program checks its own arithmetic)"})
+    ck.coverage["free_form_program_variants"] = free_n
+
     # 3. seeded random call graphs
     n = 5000 if thorough else 500
     for i in range(n):
